@@ -74,9 +74,9 @@ type Ctx struct {
 	trusted   []string
 	explain   string
 
-	declIndex map[*types.Func]*ast.FuncDecl
-	filePkg   map[*ast.File]*packages.Package
-	xb        *xbuilder
+	declIndex  map[*types.Func]*ast.FuncDecl
+	filePkg    map[*ast.File]*packages.Package
+	xb         *xbuilder
 	posCtx     *Ctx
 	roles      map[string]*ssa.Function
 	allowRetry bool
@@ -240,27 +240,27 @@ func (c *Ctx) finish(start time.Time, explanation string, assumptions []string) 
 	}
 	sort.Strings(fnames)
 	cov := map[string]any{
-		"obligations":         len(c.obls),
-		"discharged":          nDis,
-		"known_findings":      nKnown,
+		"obligations":           len(c.obls),
+		"discharged":            nDis,
+		"known_findings":        nKnown,
 		"violated_or_undecided": nViol,
-		"evaluations":         len(c.obls),
-		"distinct_nontrivial": len(distinct),
+		"evaluations":           len(c.obls),
+		"distinct_nontrivial":   len(distinct),
 		"rule": "one obligation per (rule, construct) of the current /repo tree; distinct = distinct rule+key pairs; " +
 			"non-trivial = deciding it inspected at least one branch, call site or field access of the analysed program " +
 			"(FLOOR bookkeeping entries are the only trivial ones and never appear unless an anchor is lost)",
-		"samples":            samples,
-		"explanation":        explanation,
-		"checker_cmd":        fmt.Sprintf("/verif/check %s %s", c.Prop, c.Tier),
-		"trusted_base":       c.trusted,
-		"packages":           len(c.Pkgs),
-		"functions_analysed": fnames,
-		"call_sites":         c.callSites,
-		"rules":              c.rules,
-		"notes":              c.notes,
+		"samples":             samples,
+		"explanation":         explanation,
+		"checker_cmd":         fmt.Sprintf("/verif/check %s %s", c.Prop, c.Tier),
+		"trusted_base":        c.trusted,
+		"packages":            len(c.Pkgs),
+		"functions_analysed":  fnames,
+		"call_sites":          c.callSites,
+		"rules":               c.rules,
+		"notes":               c.notes,
 		"known_finding_lines": knownLines,
-		"deps_from_source":   c.AllDeps,
-		"exhaustive":         true,
+		"deps_from_source":    c.AllDeps,
+		"exhaustive":          true,
 	}
 	seed := 0
 	fmt.Sscanf(os.Getenv("VERIF_SEED"), "%d", &seed)
